@@ -4,7 +4,7 @@ A case is {n, deps: per key a list of groups (one Resolve call per group), input
 The oracle below is the *specification*: it is computed from the graph and the history alone (fresh values by
 recursion over the DAG, the set of keys a Run has to execute, the upward closure an Evict has to remove) and
 compared with what the real executor did.  It never looks at the model."""
-import itertools
+import itertools, os
 from vlib import *
 
 MOD = 1000003
@@ -355,7 +355,9 @@ def mk_case(n, deps, ops, par, inputs=None, panic_at=None, jitter=0, timeout_ms=
 
 
 # ---------------------------------------------------------------- Coq case terms
-REPAIRED = False   # which completion / wake-up protocol the working tree has (Model/IncExec.v wfix); flip with the fix commit
+# which completion / wake-up protocol the working tree has (Model/IncExec.v wfix); flip with the fix commit
+# (VERIF_INC_REPAIRED=1 overrides, for trying the check against a repaired scratch copy)
+REPAIRED = os.environ.get("VERIF_INC_REPAIRED", "0") == "1"
 
 HEADER = ("From Coq Require Import List Arith Bool NArith.\nImport ListNotations.\n"
           "From PV Require Import Common.Corr Model.IncExec.\n")
